@@ -619,6 +619,7 @@ func (c *Ctx) applyContract(fr *Frame, st *State, ct *Contract, callee *ssa.Func
 		c.havocModifies(ct, env, est)
 		est.reach = c.def("reach", "Bool", and(st.reach, cond))
 		eenv := c.calleeEnv(ct, callee, call, args, est, pre)
+		eenv.pos = true
 		for _, cl := range ct.byKind("exits_ensures") {
 			c.assume(est.reach, c.specBool(eenv, cl.Expr))
 		}
@@ -673,6 +674,7 @@ func (c *Ctx) applyContract(fr *Frame, st *State, ct *Contract, callee *ssa.Func
 	}
 	penv := c.calleeEnv(ct, callee, call, args, st, pre)
 	c.bindResults(penv, callee, call, rvals)
+	penv.pos = true
 	for _, cl := range ct.byKind("ensures") {
 		c.assume(st.reach, c.specBool(penv, cl.Expr))
 	}
